@@ -1276,8 +1276,8 @@ func (g *gen) lim() string {
 }
 
 func (g *gen) loweringTemplate() string {
-	k := g.pick("tmpl", 26)
-	if k >= 24 {
+	k := g.pick("tmpl", 27)
+	if k >= 25 {
 		k = 5 // the aggregate traversal count shape has the narrowest eligibility of all: drawn three times as often
 	}
 	g.feat(fmt.Sprintf("template-%d", k))
@@ -1520,6 +1520,20 @@ func (g *gen) loweringTemplate() string {
 		default:
 			return "match (n" + g.optKind("t23kn") + ") unwind n.tags as w " + opt + " return " + ret
 		}
+	case 24: // an UNWIND of a carried list followed by a WITH that may reference no binding at all
+		first := "match (n" + g.optKind("t24k") + ") with " + rapid.SampledFrom([]string{"collect(n.name) as l", "collect(n.value) as l", "n.tags as l", "collect(n.name) as l, count(n) as total"}).Draw(g.t, "t24l")
+		second := rapid.SampledFrom([]string{"count(*) as c", "1 as c", "'seen' as c", "count(x) as c", "x as c", "x as c, 1 as one", "count(*) as c, 2 as two"}).Draw(g.t, "t24w")
+		ret := "c"
+		if strings.Contains(second, " one") {
+			ret = "c, one"
+		} else if strings.Contains(second, " two") {
+			ret = "c, two"
+		}
+		mid := ""
+		if g.chance("t24mid", 1, 4) {
+			mid = " match (m" + g.optKind("t24km") + ") with l, count(m) as cm"
+		}
+		return first + mid + " unwind l as x with " + second + " return " + ret
 	default: // path functions, late path materialisation
 		return "match p = (a" + g.optKind("t13k") + ")-[:" + g.eks() + g.rng() + "]->(b) where " + g.anchor("a") + " return " + rapid.SampledFrom([]string{"nodes(p)", "relationships(p)", "size(relationships(p))", "b, size(nodes(p))", "p, a.name"}).Draw(g.t, "t13f")
 	}
